@@ -224,6 +224,15 @@ Definition strict_parse (raw : bytes) : option ch_ast :=
 
 Definition ext_types (a : ch_ast) : list N := map fst (c_exts a).
 
+(* The same message written with the length-prefix combinators of Model/Wire.v, where a
+   prefix is by construction the length of what follows it (used to state what the parser
+   accepts, Props/C02.v C02_strict_sound, and what the marshaller emits). *)
+Definition enc_ext (x : N * bytes) : bytes := enc_u16 (fst x) ++ enc_u16lp (snd x).
+Definition hello_layout (a : ch_ast) : bytes :=
+  [1] ++ enc_u24lp (enc_u16 (c_vers a) ++ c_random a ++ enc_u8lp (c_sid a)
+                    ++ enc_u16lp (flat_map enc_u16 (c_suites a)) ++ enc_u8lp (c_comp a)
+                    ++ (if c_has_exts a then enc_u16lp (flat_map enc_ext (c_exts a)) else [])).
+
 (* pre_shared_key (41), when present, is the last extension (RFC 8446 s4.2.11) *)
 Fixpoint psk_lastb (types : list N) : bool :=
   match types with
